@@ -547,6 +547,28 @@ def random_extended(rng, res, n):
     idx += len(gens)
 
 
+KNOWN_SHARED_ARG = "C11/argument-container-shared-with-opaque-argument"
+
+
+def shared_argument_case(res):
+  """The hypothesis theorem C11_build_equals_call needs (arguments are plain containers) is necessary:
+  witness C11_needs_plain_args, replayed on the implementation."""
+  mod = write_module("sharedarg", HEADER + "def raw(p0, p1):\n  return l2.fa(p0, b=p1)\n\n"
+                     "prog = auto_config.auto_config(raw)\n")
+  l = []
+  obj = l2.fa(l)
+  direct = mod.prog(l, obj)
+  built = fdl.build(mod.prog.as_buildable(l, obj))
+  res.evaluations += 1
+  res.count("program:shared-argument")
+  d_share = direct.view["a"] is direct.view["b"].view["a"]
+  b_share = built.view["a"] is built.view["b"].view["a"]
+  if d_share != b_share:
+    res.failures.append(Failure(KNOWN_SHARED_ARG, "C11 shared-argument: fn(l, obj) shares l with obj.a, the built "
+                                "graph does not (fdl.build copies the list, passes obj through)",
+                                {"source": "def raw(p0, p1): return l2.fa(p0, b=p1)", "args": "l=[]; (l, l2.fa(l))"}))
+
+
 def extended_cases(rng, res):
   """Oracle-only programs for the constructs outside the modelled subset."""
   mod = write_module("ext", EXTENDED)
@@ -605,6 +627,7 @@ def run(tier: str, seed: int) -> Result:
     for i in range(n):
       core_case(rng, res, intern, stream, i)
     extended_cases(rng, res)
+    shared_argument_case(res)
     random_extended(rng, res, 200 if tier == "quick" else 4000)
   finally:
     shutil.rmtree(MODDIR, ignore_errors=True)
